@@ -78,20 +78,24 @@ def run_case(ctx, case):
     for lv in range(levels):
         dr = dr0 / 2 ** lv
         L = int(round(rmax / dr))
+        # the number of points as a numpy integer of any width (a value read from a binary header, len() of an array ...)
+        carrier = [int, np.int64, np.int32, np.int16][int(round(w * 1000 + rmax * 10 + levels)) % 4]
+        Lc = carrier(L) if (carrier is not np.int16 or L < 32000) else int(L)
+        ctx.count('length_carrier', type(Lc).__name__)
         if how == 'fresh_positional':
-            d = pyPRISM.Domain(L, dr)                 # Domain(length, dr, dk): the documented argument order
+            d = pyPRISM.Domain(Lc, dr)                # Domain(length, dr, dk): the documented argument order
         elif how == 'fresh' or d is None:
-            d = pyPRISM.Domain(length=L, dr=dr) if how != 'fresh_dk' else pyPRISM.Domain(length=L, dk=math.pi / rmax)
+            d = pyPRISM.Domain(length=Lc, dr=dr) if how != 'fresh_dk' else pyPRISM.Domain(length=Lc, dk=math.pi / rmax)
         elif how == 'fresh_dk':
-            d = pyPRISM.Domain(length=L, dk=math.pi / rmax)
+            d = pyPRISM.Domain(length=Lc, dk=math.pi / rmax)
         elif how == 'refine_dr_then_length':
             d.dr = dr
-            d.length = L
+            d.length = Lc
         elif how == 'refine_length_then_dr':
-            d.length = L
+            d.length = Lc
             d.dr = dr
         else:                                  # at fixed r_max dk does not change: only the length has to be doubled
-            d.length = L
+            d.length = Lc
             d.dk = math.pi / rmax
         r, k = np.asarray(d.r), np.asarray(d.k)
         f, F, V = analytic(kind, w, A, r, k)
